@@ -1195,7 +1195,7 @@ def run(ctx):
     if not HAVE_PQ:
         ctx.notes.append('pyarrow is not importable: parquet format skipped')
     cases = corpus_cases()
-    bigs = SIZES_BIG if ctx.thorough() else [4096, 4097, 5000]
+    bigs = SIZES_BIG if ctx.thorough() else [4097, 5000]
     for b in bigs:
         cases.append(gen_l1(rng, ctx, big=b))
     for b in (bigs if ctx.thorough() else [4097]):
